@@ -983,9 +983,11 @@ pub fn corpus_sequences(max_len: usize) -> Vec<ManifestSet> {
 
 /// C11: binding slots around one build statement.  `assign[i]` selects the
 /// expression of slot i (0 = slot absent).
+/// `$description` names a sibling attribute: from a rule binding it is looked
+/// up like any variable (build block, then file - not the rule itself).
 /// The two variables are called `outd` and `inc`: names that merely begin like
 /// the implicit `$out` / `$in` must not be taken for them.
-pub const C11_EXPRS: &[&str] = &["L", "$outd", "$inc", "a$outd", "${inc}b", "", "$in", "$out"];
+pub const C11_EXPRS: &[&str] = &["L", "$outd", "$inc", "a$outd", "${inc}b", "", "$in", "$out", "$description"];
 pub const C11_SLOTS: usize = 12;
 
 #[derive(Debug, Clone, Copy, PartialEq, Eq)]
